@@ -143,3 +143,29 @@ Proof.
 Qed.
 
 End Facts.
+
+(* ---- the library's cleaning removes exactly the white space of Spec/Whitespace.v ---------------------------------- *)
+From Schwifty Require Import Spec.Whitespace.
+Definition ws_exact (e : env) : bool :=
+  forallb (is_space e) unicode_whitespace && forallb (fun c => mem c unicode_whitespace) (env_ws e).
+
+Lemma mem_in_iff c l : mem c l = true <-> In c l.
+Proof.
+  unfold mem. rewrite existsb_exists. split.
+  - intros (x & Hx & E). apply N.eqb_eq in E. subst x. exact Hx.
+  - intro H. exists c. split; [exact H|apply N.eqb_refl].
+Qed.
+
+Lemma ws_exact_space e c : ws_exact e = true -> is_space e c = mem c unicode_whitespace.
+Proof.
+  unfold ws_exact. intro H. apply andb_true_iff in H as [H1 H2]. rewrite forallb_forall in H1, H2.
+  unfold is_space in *. destruct (mem c (env_ws e)) eqn:E1; destruct (mem c unicode_whitespace) eqn:E2; try reflexivity.
+  - apply mem_in_iff in E1. rewrite (H2 c E1) in E2. discriminate.
+  - apply mem_in_iff in E2. rewrite (H1 c E2) in E1. discriminate.
+Qed.
+
+(* clean(text) = text with the white space removed, upper-cased *)
+Lemma clean_strip e t : ws_exact e = true -> clean e t = upper e (strip_whitespace t).
+Proof.
+  intro H. unfold clean, strip_whitespace. f_equal. apply filter_ext. intro c. rewrite (ws_exact_space e c H). reflexivity.
+Qed.
